@@ -98,6 +98,15 @@ theorem oldest_is_always_head (eq : Snap → Snap → Bool) (l : List Snap) (i :
     headOf eq ((ctxFrom none l)[i]'(by rw [ctxFrom_length]; omega)) = true :=
   oldest_is_head eq l i hlast
 
+/-- "…one of the newest N distinct periods": while all newer snapshots are ordinary, the rank of the i-th
+snapshot among the X-heads is the number of maximal runs of equal X-period keys among the snapshots
+newer than it — the number of distinct newer periods when equal keys are adjacent (`PeriodContiguous`). -/
+theorem rank_counts_newer_periods {κ : Type} [DecidableEq κ] (key : Snap → κ) (eq : Snap → Snap → Bool)
+    (heq : ∀ a b, eq a b = true ↔ key a = key b) (o : KeepOptions) (now : Int) (l : List Snap) (i : Nat)
+    (hi : i < l.length) (hord : ∀ c ∈ (ctxFrom none l).take i, kind o now c = .ord) :
+    rank o now eq ((ctxFrom none l).take i) = runsFrom key none (l.take i) :=
+  rank_eq_runs key eq heq o now l none i hi hord
+
 /-- Raising keep counts (everything else equal) never removes a snapshot that was kept before. -/
 theorem monotone (o o' : KeepOptions) (h : WF o) (hle : OptsLe o o') (sorted : List Snap) (now : Int) (i : Nat)
     (x : Out) (hx : (applySorted o sorted now)[i]? = some x) (hk : x.keep = true) :
@@ -193,6 +202,8 @@ example : (applySorted exOpts exSnaps 10).map (fun o => (o.keep, o.reasons))
 example : OptsLe exOpts { exOpts with slots := exOpts.slots.set 3 ⟨some 2, none⟩ } := by
   refine ⟨rfl, rfl, rfl, ?_⟩
   repeat (first | exact SlotsLe.nil | refine SlotsLe.cons rfl (by simp [CountLe]) ?_)
+/-- two distinct days (246, 245, 245) among the three newest snapshots of `exSnaps` -/
+example : runsFrom keyDay none (exSnaps.take 3) = 2 := by decide
 example : PeriodContiguous keyDay exSnaps := by
   have key : ∀ (i j k : Fin 4), i < j → j < k →
       keyDay (exSnaps[i.1]'i.2) = keyDay (exSnaps[k.1]'k.2) → keyDay (exSnaps[j.1]'j.2) = keyDay (exSnaps[k.1]'k.2) := by
